@@ -30,7 +30,12 @@ EXPLANATION = (
     "PROBABLY_PRIME iff neither Miller-Rabin nor Lucas answered COMPOSITE (all "
     "four outcome combinations); generate_probable_prime only returns a candidate "
     "that passed; the Miller-Rabin schedule is a decreasing step function. Not "
-    "decided: exactness of libgmp and of the C Montgomery code, that MR/Lucas as "
+    "src/bignum.c (ge, sub, addmul) is interpreted on the C evaluator on all "
+    "vectors of 1..3 words over {0, 1, 2^64-1}; src/mont.c (encode/decode, add, "
+    "sub, mult with the dedicated P-256/P-384/P-521/Ed448 reductions and the "
+    "generic one) on boundary operands for seven moduli, against Python's "
+    "modular arithmetic. Not decided: exactness of libgmp, the C arithmetic "
+    "beyond those boundary tables (monty_pow's windowing), that MR/Lucas as "
     "coded are the mathematical tests.")
 
 
@@ -42,5 +47,8 @@ def run(check, ctx):
     if n < 9000:
         raise AnalysisError("only %d integer rows interpreted (confirmed: 10095)" % n)
     c14_extra.run(check, ctx)
+    # the custom back-end's C arithmetic: multi-word primitives and the Montgomery layer
+    from . import c_mont
+    c_mont.mont_tables(check, ctx, with_inverse=(ctx.tier == "thorough"))
     check.undecided.append("exactness of any GMP / C Montgomery result; that Miller-Rabin and Lucas as coded are the "
                            "mathematical tests; the error bound of the Miller-Rabin schedule")
